@@ -404,10 +404,10 @@ pub fn def() -> PropDef {
         abort_possible: false,
         parts: |tier| {
             vec![
-                part("builtin", tier.pick(60_000, 1_500_000), case_strategy(BUILTIN_KINDS.len(), 160), builtin),
-                part("service_types", tier.pick(45_000, 1_200_000), case_strategy(SERVICE_TYPE_NAMES.len(), 400), service_type),
-                part("enums", tier.pick(2_000, 40_000), case_strategy(ENUM_TYPE_NAMES.len(), 8), enum_type),
-                part("messages", tier.pick(12_000, 400_000), case_strategy(MESSAGE_NAMES.len(), 500), message),
+                part("builtin", tier.pick(60_000, 7_500_000), case_strategy(BUILTIN_KINDS.len(), 160), builtin),
+                part("service_types", tier.pick(45_000, 6_000_000), case_strategy(SERVICE_TYPE_NAMES.len(), 400), service_type),
+                part("enums", tier.pick(2_000, 200_000), case_strategy(ENUM_TYPE_NAMES.len(), 8), enum_type),
+                part("messages", tier.pick(12_000, 2_000_000), case_strategy(MESSAGE_NAMES.len(), 500), message),
             ]
             .into_iter()
             // decode-as-generator: whatever decodes is a value (including non-canonical forms no constructive generator builds)
